@@ -108,7 +108,7 @@ pub fn rich_dump(r: &mut Rng, prop: &str, seed: u64, profile: &str, benign_fault
         exe_name: "/usr/bin/app",
         alt_chain: false,
         names_at_end: false,
-        lib_gaps: false,
+        lib_gaps: r.chance(1, 3),
     };
     let mut b = build_world(r, &cfg);
     let mut opts = Opts {
@@ -147,9 +147,11 @@ pub fn rich_dump(r: &mut Rng, prop: &str, seed: u64, profile: &str, benign_fault
             _ => ss + sl - 0x80 - r.below(sl / 2 / 8) * 8,
         };
         let exe = &b.modules[0];
-        let rip = match r.below(6) {
+        let gapped: Option<u64> = b.modules.iter().find(|m| m.image.data_vaddr > m.image.data_off).map(|m| m.base + m.image.text_off + m.image.text_len);
+        let rip = match r.below(8) {
             0 => 0x10,
             1 => exe.base + exe.image.text_off, // first byte of the text region
+            6 | 7 if gapped.is_some() => gapped.unwrap() - 1 - r.below(100), // just before a library's inaccessible reserved gap
             2 => exe.base + exe.image.text_off + exe.image.text_len - 1,
             _ => exe.base + exe.image.text_off + 0x200 + r.below(0x400),
         };
@@ -432,6 +434,19 @@ pub fn reader_knob(r: &mut Rng, faults: &mut Vec<FaultRule>, tags: &mut Vec<Stri
             tags.push("reader:peekdata".into());
         }
         _ => {}
+    }
+}
+
+pub fn reader_knob_forced(_r: &mut Rng, faults: &mut Vec<FaultRule>, tags: &mut Vec<String>, peek: bool) {
+    if faults.iter().any(|f| f.trig.kind == CallKind::Vmreadv && f.times > 1000) {
+        return;
+    }
+    faults.push(FaultRule { trig: Trigger { kind: CallKind::Vmreadv, nth: 0, path: None }, effect: Effect::Errno(38), times: 1_000_000, exotic: false });
+    if peek {
+        faults.push(FaultRule { trig: Trigger { kind: CallKind::Open, nth: 0, path: Some("/mem".into()) }, effect: Effect::Errno(13), times: 1_000_000, exotic: false });
+        tags.push("reader:peekdata".into());
+    } else {
+        tags.push("reader:proc-mem".into());
     }
 }
 
@@ -723,6 +738,12 @@ fn gen_c04(r: &mut Rng, seed: u64) -> Scenario {
     }
     let mut sc = simple_dump_scenario("C04", seed, "c04-threads", b, opts);
     reader_knob(r, &mut sc.faults, &mut tags);
+    if r.chance(1, 6) {
+        // a kernel without PTRACE_GETREGSET: every thread's registers come through the GETREGS /
+        // GETFPREGS fallback
+        sc.faults.push(FaultRule { trig: Trigger { kind: CallKind::PtraceGetregset, nth: 0, path: None }, effect: Effect::Errno(5), times: 1_000_000, exotic: false });
+        tags.push("no-getregset".into());
+    }
     if r.chance(1, 10) && n > 1 {
         events.push(Event { trig: Trigger { kind: CallKind::PtraceAttach, nth: r.below(n as u64) as u32, path: None }, what: EventKind::Spawn { tid: PID + 900 } });
         tags.push("spawn-during-dump".into());
@@ -821,6 +842,7 @@ fn gen_c07(r: &mut Rng, seed: u64) -> Scenario {
     let n = thread_count(r).min(40);
     let mut cfg = plain_cfg(n, r.below(3) as usize);
     cfg.stack_pages_max = 4;
+    cfg.lib_gaps = r.coin();
     let mut b = build_world(r, &cfg);
     b.world.fds.clear();
     let mut tags = Vec::new();
@@ -862,7 +884,9 @@ fn gen_c07(r: &mut Rng, seed: u64) -> Scenario {
         let adj_a = b.add_anon(0x2000, "rw-p", r.next(), 2);
         let adj_b = b.add_anon(0x2000, "r-xp", r.next(), 0);
         let _ = adj_a;
-        let (rip, pos) = match r.below(11) {
+        let gapped: Option<u64> = b.modules.iter().find(|m| m.image.data_vaddr > m.image.data_off).map(|m| m.base + m.image.text_off + m.image.text_len);
+        let (rip, pos) = match r.below(13) {
+            11 | 12 if gapped.is_some() => (gapped.unwrap() - 1 - r.below(120), "before-reserved-gap"),
             8 => (adj_b, "adjacent-start"),
             9 => (adj_b - 1, "adjacent-end-1"),
             10 => (adj_b + 0x2000 - 1, "adjacent-last-byte"),
@@ -898,8 +922,28 @@ fn gen_c20(r: &mut Rng, seed: u64) -> Scenario {
     b.world.fds.clear();
     let mut tags = Vec::new();
     let mut opts = Opts { blamed: tid_of(r.below(n as u64) as usize), skip_unref: true, ..Default::default() };
+    // two different anonymous mappings back to back, followed by a hole
+    let adj_a = b.add_anon(0x2000, "r--p", r.next(), 3);
+    let adj_b = b.add_anon(0x2000, "rw-p", r.next(), 0);
     // principal mapping: a library, the exe, an anonymous region, or nothing
-    let pm: Option<(u64, u64)> = match r.below(8) {
+    let pm: Option<(u64, u64)> = match r.below(11) {
+        8 => {
+            // first byte of a mapping that directly follows another one
+            opts.principal = Some(adj_b);
+            tags.push("principal-at-seam".into());
+            Some((adj_b, adj_b + 0x2000))
+        }
+        9 => {
+            opts.principal = Some(adj_b - 1);
+            tags.push("principal-before-seam".into());
+            Some((adj_a, adj_a + 0x2000))
+        }
+        10 => {
+            // the end address of a mapping that is followed by a hole: no mapping
+            opts.principal = Some(adj_b + 0x2000);
+            tags.push("principal-at-end-before-hole".into());
+            None
+        }
         0 => {
             opts.principal = Some(0x1_0000);
             tags.push("principal-unmapped".into());
@@ -938,6 +982,15 @@ fn gen_c20(r: &mut Rng, seed: u64) -> Scenario {
         let Some((lo, hi)) = pm else { continue };
         let inside = lo + r.below(hi - lo);
         let first_word = (sp + 7) & !7;
+        if (lo == adj_b || lo == adj_a) && r.chance(1, 3) {
+            // a pointer into the neighbouring mapping is not a reference
+            let other = if lo == adj_b { adj_a } else { adj_b };
+            b.world.plants.push((first_word + 8, other + r.below(0x2000)));
+            if !kinds.contains(&"ptr-into-neighbour") {
+                kinds.push("ptr-into-neighbour");
+            }
+            continue;
+        }
         let last_word = ss + sl - 8;
         // with a size limit, late threads' stacks are cut to 2 KiB: only references near the stack
         // pointer are unambiguous then
@@ -1700,7 +1753,7 @@ fn gen_c08(r: &mut Rng, seed: u64) -> Scenario {
     }
     // a library whose section table is not mapped and whose note is only in a section
     if r.chance(1, 3) {
-        let spec = crate::elfgen::ElfSpec { build_id: Some(r.bytes(20)), note_in_phdr: false, soname: Some("libfileonly.so.2".into()), sections: true, text_pages: 1, text_seed: r.next(), dt_debug: false, dyn_pad: 0, with_pt_phdr: false, sections_at_end: true, rodata_before_text: false, data_gap_pages: 0 };
+        let spec = crate::elfgen::ElfSpec { build_id: Some(r.bytes(20)), note_in_phdr: false, soname: Some("libfileonly.so.2".into()), sections: true, text_pages: 1, text_seed: r.next(), dt_debug: false, dyn_pad: 0, with_pt_phdr: false, sections_at_end: true, rodata_before_text: false, data_gap_pages: 0, link_base: 0, text_sec_skip: 0 };
         let img = crate::elfgen::build(&spec);
         let base = LIB_BASE + 0x5000_0000;
         let path = "/usr/lib/libfileonly.so.2.0";
@@ -1717,7 +1770,7 @@ fn gen_c08(r: &mut Rng, seed: u64) -> Scenario {
     }
     // a library embedded in an archive: executable mapping from a non-zero file offset
     if r.chance(1, 3) {
-        let spec = crate::elfgen::ElfSpec { build_id: Some(r.bytes(20)), note_in_phdr: true, soname: Some("libembedded.so".into()), sections: r.coin(), text_pages: 1, text_seed: r.next(), dt_debug: false, dyn_pad: 0, with_pt_phdr: false, sections_at_end: false, rodata_before_text: false, data_gap_pages: 0 };
+        let spec = crate::elfgen::ElfSpec { build_id: Some(r.bytes(20)), note_in_phdr: true, soname: Some("libembedded.so".into()), sections: r.coin(), text_pages: 1, text_seed: r.next(), dt_debug: false, dyn_pad: 0, with_pt_phdr: false, sections_at_end: false, rodata_before_text: false, data_gap_pages: 0, link_base: 0, text_sec_skip: 0 };
         let img = crate::elfgen::build(&spec);
         let base = LIB_BASE + 0x6000_0000;
         let path = "/data/app/base.apk";
@@ -1730,6 +1783,22 @@ fn gen_c08(r: &mut Rng, seed: u64) -> Scenario {
         b.world.files.push(FileSpec { path: B::s(path), content: B(filec), mode: 0o100644 });
         push_tags(&mut tags, &["archive-offset"]);
     }
+    // a statically linked, non-position-independent program image: every virtual address in it is
+    // absolute (link base 0x400000) and differs from the file offset
+    if r.chance(1, 3) {
+        let spec = crate::elfgen::ElfSpec { build_id: Some(r.bytes(20)), note_in_phdr: true, soname: None, sections: r.coin(), text_pages: 1, text_seed: r.next(), dt_debug: false, dyn_pad: 0, with_pt_phdr: true, sections_at_end: false, rodata_before_text: false, data_gap_pages: 0, link_base: 0x40_0000, text_sec_skip: 0 };
+        let img = crate::elfgen::build(&spec);
+        let base = 0x40_0000u64;
+        let path = "/opt/tools/static-helper";
+        let gone = r.coin();
+        for (off, len, perms) in [(0u64, 0x1000u64, "r--p"), (img.text_off, img.text_len, "r-xp"), (img.data_off, 0x1000, "rw-p")] {
+            b.world.regions.push(RegionSpec { start: base + off, len, perms: perms.into(), offset: off, inode: 2323, name: B::s(path), deleted: gone, content: Content::Bytes(B(img.file[off as usize..(off + len) as usize].to_vec())) });
+        }
+        if !gone {
+            b.world.files.push(FileSpec { path: B::s(path), content: B(img.file.clone()), mode: 0o100755 });
+        }
+        push_tags(&mut tags, &[if gone { "non-pie-deleted" } else { "non-pie" }]);
+    }
     // a non-ELF file mapping and an all-zero build id
     if r.chance(1, 3) {
         let start = b.add_anon(0x3000, "r--p", r.next(), 1);
@@ -1740,7 +1809,7 @@ fn gen_c08(r: &mut Rng, seed: u64) -> Scenario {
         push_tags(&mut tags, &["non-elf"]);
     }
     if r.chance(1, 4) {
-        let spec = crate::elfgen::ElfSpec { build_id: Some(vec![0u8; 20]), note_in_phdr: true, soname: None, sections: true, text_pages: 1, text_seed: 5, dt_debug: false, dyn_pad: 0, with_pt_phdr: false, sections_at_end: false, rodata_before_text: false, data_gap_pages: 0 };
+        let spec = crate::elfgen::ElfSpec { build_id: Some(vec![0u8; 20]), note_in_phdr: true, soname: None, sections: true, text_pages: 1, text_seed: 5, dt_debug: false, dyn_pad: 0, with_pt_phdr: false, sections_at_end: false, rodata_before_text: false, data_gap_pages: 0, link_base: 0, text_sec_skip: 0 };
         let img = crate::elfgen::build(&spec);
         let base = LIB_BASE + 0x7000_0000;
         let path = "/usr/lib/libzeroid.so";
@@ -2084,7 +2153,7 @@ fn gen_c02(r: &mut Rng, seed: u64) -> Scenario {
     let mut tags = sc.tags.clone();
     let nh = r.range(1, 4);
     for _ in 0..nh {
-        match r.below(18) {
+        match r.below(20) {
             0 | 1 => {
                 // hostile crash context registers
                 let blamed = match &sc.workload { Workload::Dump(p) => p.opts.blamed, _ => PID };
@@ -2318,9 +2387,14 @@ fn gen_c02(r: &mut Rng, seed: u64) -> Scenario {
             }
             _ => {
                 // events: process killed or threads exiting at arbitrary calls
-                let kind = *r.pick(&[CallKind::Read, CallKind::PtraceAttach, CallKind::Waitpid, CallKind::Vmreadv, CallKind::PtraceGetregset, CallKind::Open]);
+                let kind = *r.pick(&[CallKind::Read, CallKind::PtraceAttach, CallKind::Waitpid, CallKind::Vmreadv, CallKind::PtraceGetregset, CallKind::Open, CallKind::Pread, CallKind::Pread, CallKind::PtracePeekdata]);
                 sc.events.push(Event { trig: Trigger { kind, nth: r.below(40) as u32, path: None }, what: EventKind::KillProcess });
                 push_tags(&mut tags, &["h:killed"]);
+                if matches!(kind, CallKind::Pread | CallKind::PtracePeekdata) || r.chance(1, 3) {
+                    // ... while the writer is on a fallback read strategy (an open /proc/pid/mem handle
+                    // outlives the target)
+                    reader_knob_forced(r, &mut sc.faults, &mut tags, kind == CallKind::PtracePeekdata);
+                }
             }
         }
     }
